@@ -83,13 +83,13 @@ fn modules() -> Vec<Box<dyn Module>> {
 /// Which modules the check of a property runs (each module generates the ops relevant to `pid`).
 fn modules_for(pid: &str) -> &'static [&'static str] {
     match pid {
-        "C01" => &["styled", "adapters", "image", "text", "circle", "ellipse", "rrect"],
-        "C02" => &["styled", "text", "image", "thick"],
+        "C01" => &["styled", "adapters", "image", "text", "circle", "ellipse", "rrect", "sector"],
+        "C02" => &["styled", "text", "image", "thick", "sector"],
         "C03" => &["adapters"],
         "C04" => &["faults"],
         "C05" => &["rect", "circle", "ellipse", "rrect", "sector", "tri"],
         "C06" => &["styled", "circle", "ellipse", "rrect"],
-        "C07" => &["styled", "line", "text", "image", "thick"],
+        "C07" => &["styled", "line", "text", "image", "thick", "sector"],
         "C08" => &["scale"],
         "C09" => &["image"],
         "C10" => &["fb"],
